@@ -20,8 +20,9 @@ pub struct SingleCase {
 }
 
 pub enum Schedule<'a, 'b> {
-    /// Choices from a tape; after `max_actions` the default policy finishes the run.
-    Tape(&'a mut Tape<'b>, usize),
+    /// Choices from a tape; after `max_actions` the default policy finishes the
+    /// run; the last field is the action count at which the run is dropped.
+    Tape(&'a mut Tape<'b>, usize, Option<usize>),
     /// Recorded actions (inapplicable ones are skipped), then the default policy.
     Replay(&'a [Act]),
     /// Recorded actions, strictly: stop at the first inapplicable one.
@@ -59,8 +60,12 @@ pub fn drive(s: &mut dyn Stepper, schedule: Schedule) -> bool {
     let mut k = 0usize;
     let mut strict_ok = true;
     match schedule {
-        Schedule::Tape(t, max_actions) => {
+        Schedule::Tape(t, max_actions, abort_after) => {
             while !s.done() && !s.stuck() && k < HARD_ACTION_CAP {
+                if abort_after == Some(k) && s.apply(Act::Abort) {
+                    k += 1;
+                    continue;
+                }
                 let opts = s.options();
                 if opts.is_empty() {
                     break;
